@@ -59,7 +59,7 @@ MANIFEST = {
 
 
 def plan(tier):
-    t = 240 if tier == "quick" else 1500
+    t = 240 if tier == "quick" else 900
     parts = [f"0:{c},1:{s},2:{r}" for c in range(2) for s in range(2) for r in range(3)]
     sparts = [f"0:{r}" for r in range(3)]
     if tier == "thorough":
